@@ -866,6 +866,7 @@ def rule_hygiene(ctx):
     rule_global_row_leak(ctx, fs, label)
     rule_unit_pairs(ctx, fs, label)
     rule_dead_keys(ctx, fs, label)
+    rule_abs_before_modulo(ctx, fs, label)
 
 
 # --------------------------------------------------------------------------- CARRY
@@ -1283,3 +1284,21 @@ def rule_dead_keys(ctx, scope, label):
                      f"the entry {k!r} of `{name}` is filled at line {node.lineno} and never read in {f.qname.split(':')[1]}: the selection it was computed for "
                      f"is made from something else")
     ctx.ok(rule, f"{label}: {n} functions, every prepared dict entry is consulted")
+
+
+# --------------------------------------------------------------------------- MOD-abs
+
+def rule_abs_before_modulo(ctx, scope, label):
+    rule = "MOD-abs"
+    ctx.rule(rule, "no `abs(a - b) % n` (or `abs(a + b) % n`): Python's % already maps into 0..n-1, and the absolute value of a negative "
+                   "difference is a different residue (abs(0 - 2) % 7 == 2, (0 - 2) % 7 == 5)")
+    n = 0
+    for f in _funcs_of(ctx, scope):
+        for b in ast.walk(f.node):
+            if isinstance(b, ast.BinOp) and isinstance(b.op, ast.Mod) and isinstance(b.left, ast.Call) and norm(b.left.func) in ("abs", "np.abs", "numpy.abs") \
+                    and b.left.args and isinstance(b.left.args[0], ast.BinOp) and isinstance(b.left.args[0].op, (ast.Sub, ast.Add)):
+                n += 1
+                if isinstance(b.left.args[0].op, ast.Sub):
+                    ctx.fail(rule, f"{f.qname}: `{norm(b)[:40]}`", f.qname, f"abs-of-difference-before-modulo:{f.name}", f.module.relpath, b.lineno,
+                             f"`{norm(b)}` wraps the wrong way whenever the difference is negative: {norm(b.left.args[0])} = -2 gives 2 instead of n-2")
+    ctx.ok(rule, f"{label}: no abs(difference) % n")
